@@ -8,7 +8,7 @@
    cascade children, soundness of the executable checker) are kept. *)
 From Coq Require Import ZArith List Bool Lia Arith.
 Import ListNotations.
-Require Import Params StateW ModularW DisposeW StateP ModularP Rc RcSpec RcP RcWeakP RcDepthP RcEpochP RcSnapCheck RcSnapP RcStampP RcSnapInvP RcWSnapInvP.
+Require Import Params StateW ModularW DisposeW StateP ModularP Rc RcSpec RcP RcWeakP RcDepthP RcEpochP RcSnapCheck RcSnapP RcStampP RcSnapInvP RcWSnapInvP RcRunOkEx.
 Local Open Scope Z_scope.
 
 Theorem C02_ebr_layer_invariant :
@@ -213,3 +213,30 @@ Theorem C02_count_hypotheses_discharged :
 Proof. exact RcWSnapInvP.live_counted_along_runs. Qed.
 Print Assumptions C02_count_hypotheses_discharged.
 
+(* ---- run_ok is satisfiable on a run in which the conclusion is NOT vacuous: thread 1 is inside a critical section holding a
+   Snapshot and a WeakSnapshot of object 1 whose strong count is 0, whose try_destruct is pending with thread 1's section as
+   witness - only the grace period keeps the object alive - and snap_valid holds of that state (RcRunOkEx.v) *)
+Theorem C02_final_hypotheses_satisfiable :
+  run_ok ex2_s0 ex2_sched.
+Proof. exact RcRunOkEx.ex2_run_ok. Qed.
+Print Assumptions C02_final_hypotheses_satisfiable.
+
+Theorem C02_final_example_state :
+  let s := RcDepthP.mrun ex2_s0 ex2_sched in
+       match gett s 1 with
+       | Some x =>
+           match geto s 1 with
+           | Some ob =>
+               incs x && holds_snap x 1 && holds_wsnap x 1 && obj_live s 1 && (strong (word ob) =? 0) &&
+               (owners s 1 =? 0) && (attempts s 1 =? 1) && RcSnapInv.pend_wit s 1 (serial x) 1
+           | None => false
+           end
+       | None => false
+       end = true.
+Proof. exact RcRunOkEx.ex2_state. Qed.
+Print Assumptions C02_final_example_state.
+
+Theorem C02_final_example_conclusion :
+  snap_valid (RcDepthP.mrun ex2_s0 ex2_sched).
+Proof. exact RcRunOkEx.ex2_snap_valid. Qed.
+Print Assumptions C02_final_example_conclusion.
